@@ -105,7 +105,7 @@ impl Profile {
                 p.pct_lifecycle = 0;
                 p.resp_weights = [10, 1, 2, 3, 1, 1, 1];
             }
-            "C02" => {
+            "C02" | "C12" => {
                 p.name = "C02-chains";
                 p.n_methods = (1, 2);
                 p.pats_per_method = (1, 2);
